@@ -46,6 +46,14 @@ def cigar_complement(s):
     return cigar_str([(n, _COMP.get(c, c)) for n, c in reversed(ops)])
 
 
+def cigar_swap(s):
+    """The same alignment with the roles of reference and query exchanged, read in the same direction
+    (I<->D, order kept); '*' and traces unchanged."""
+    if s == "*" or "," in s or not CIGAR_OP_RE.search(s):
+        return s
+    return cigar_str([(n, _COMP.get(c, c)) for n, c in cigar_parse(s)])
+
+
 def cigar_reflen(s):
     ops = cigar_parse(s)
     if ops is None:
